@@ -33,8 +33,17 @@ S4B = [(*t, g) for t, g in zip(S3B, [I("http://b#g"), DEFAULT])]
 PRESET = (8, 3, 1)
 
 
-def _opts(cls):
-    return DR.make_options(cls, PRESET, 250, True, generalized=False, rdf_star=False)
+def _opts(cls, stream_name: str = ""):
+    return DR.make_options(cls, PRESET, 250, True, generalized=False, rdf_star=False,
+                           stream_name=stream_name)
+
+
+XSD_INT = "http://www.w3.org/2001/XMLSchema#integer"
+# lexical forms that rdflib may normalise ("002" -> "2"): whatever it does, it must not depend on
+# which other parser happens to be alive
+NC3 = [(I("http://a/x"), I("http://a/p"), L(lex, None, XSD_INT))
+       for lex in ("01", "002", "+3", "0004", "00005", "+6")]
+NC3B = [(I("http://a/y"), I("http://a/p"), L(lex, None, XSD_INT)) for lex in ("7", "08", "+9")]
 
 
 def _bytes(frame) -> bytes:
@@ -46,14 +55,14 @@ def _bytes(frame) -> bytes:
 
 
 # ----------------------------------------------------------- step workloads
-def w_serialize(api: str, cls: str, seq, shared_key=None):
+def w_serialize(api: str, cls: str, seq, shared_key=None, stream_name: str = ""):
     """Statement-level serializer workload; a generator whose yields are step boundaries."""
 
     def gen(shared: dict):
         if shared_key:
             opts = shared.setdefault(shared_key, _opts(cls))
         else:
-            opts = _opts(cls)
+            opts = _opts(cls, stream_name)
         stream = DR.g_stream(cls, opts) if api == "generic" else DR.r_stream(cls, opts)
         conv = T.st_to_generic if api == "generic" else T.st_to_rdflib
         out = []
@@ -109,7 +118,7 @@ def w_parse(api: str, mode: str, data: bytes):
 
 
 def fixed_stream(cls: str, seq) -> bytes:
-    return DR.g_write(seq, cls, DR.make_options(cls, PRESET, 2, True, generalized=False,
+    return DR.g_write(seq, cls, DR.make_options(cls, (8, 3, 2), 2, True, generalized=False,
                                                 rdf_star=False))
 
 
@@ -125,6 +134,10 @@ def step_workloads() -> dict:
         "ser-rdflib-triple": w_serialize("rdflib", "triple", S3),
         "ser-rdflib-quad": w_serialize("rdflib", "quad", S4B),
         "ser-rdflib-graph": w_serialize("rdflib", "graph", S4),
+        "ser-generic-named-a": w_serialize("generic", "triple", S3, stream_name="sensor-alpha"),
+        "ser-generic-named-b": w_serialize("generic", "triple", S3, stream_name="sensor-beta"),
+        "parse-rdflib-noncanonical-1": w_parse("rdflib", "flat", fixed_stream("triple", NC3)),
+        "parse-rdflib-noncanonical-2": w_parse("rdflib", "flat", fixed_stream("triple", NC3B)),
         "ser-shared-opts-1": w_serialize("generic", "triple", S3, "shared"),
         "ser-shared-opts-2": w_serialize("generic", "triple", S3B, "shared"),
         "parse-generic-flat": w_parse("generic", "flat", d3),
@@ -363,6 +376,14 @@ def probe_digests() -> dict:
             read = DR.g_read if api == "generic" else DR.r_read
             out[f"{api}-{cls}-parse"] = hashlib.sha256(
                 repr(read(fixed_stream(cls, seq), "flat")).encode()).hexdigest()
+    # same settings as an earlier stream except for the stream name
+    for api in ("generic", "rdflib"):
+        g = w_serialize(api, "triple", S3, stream_name="probe-name")({})
+        try:
+            while True:
+                next(g)
+        except StopIteration as e:
+            out[f"{api}-named"] = hashlib.sha256(bytes.fromhex(e.value)).hexdigest()
     # namespace declarations: one statement (no container order involved), several bindings
     binds = [("ex", "http://a/"), ("b", "http://b#"), ("c", "http://c/"), ("", "urn:x"),
              ("zz", "http://zz/")]
@@ -419,7 +440,19 @@ def history_actions() -> dict:
         except Exception:  # noqa: BLE001
             pass
 
+    def named(api):
+        def act():
+            g = w_serialize(api, "triple", S3, stream_name="other-name")({})
+            try:
+                while True:
+                    next(g)
+            except StopIteration:
+                pass
+        return act
+
     return {
+        "named-generic": named("generic"),
+        "named-rdflib": named("rdflib"),
         "abandon-generic-triple": abandon("generic", "triple", S3B),
         "abandon-rdflib-quad": abandon("rdflib", "quad", S4B),
         "fail-generic": failing("generic"),
